@@ -267,6 +267,7 @@ def c03_rf11(run):
     rf_iface.rf31b(run)
     rf_flow.rf33(run)
     rf_iface.rf42(run)
+    rf_iface.rf47(run)
 
 
 def c06_rf11(run):
@@ -283,6 +284,7 @@ def c05_rf12(run):
     run.min_instances('RF12b', 100)
     rf_alloc.rf3b(run, units=('mir',))
     run.min_instances('RF3b', 100)
+    rf_iface.rf47(run)
 
 
 def c05_rf10(run):
